@@ -5,7 +5,40 @@ package raft
 import (
 	"fmt"
 	"os"
+	"runtime"
+	"sync/atomic"
+	"time"
 )
+
+// simBeat is bumped whenever a simulated event starts; simDoing names it.  The watchdog ends the
+// process when a single event of the real code does not return (a handler blocked for ever: a
+// deadlock of the node's main loop), so that the check reports it instead of hanging.
+var (
+	simBeat  int64
+	simDoing atomic.Value
+)
+
+func simWatchdog(limit time.Duration) {
+	go func() {
+		last, since := int64(-1), time.Now()
+		for {
+			time.Sleep(2 * time.Second)
+			b := atomic.LoadInt64(&simBeat)
+			if b == 0 || b != last {
+				last, since = b, time.Now()
+				continue
+			}
+			if time.Since(since) > limit {
+				what, _ := simDoing.Load().(string)
+				fmt.Fprintf(os.Stderr, "\nSTALL: the event %q did not return within %v: the real code blocked (deadlock of the node's main loop)\n", what, limit)
+				buf := make([]byte, 1<<16)
+				n := runtime.Stack(buf, true)
+				os.Stderr.Write(buf[:n])
+				os.Exit(3)
+			}
+		}
+	}()
+}
 
 // VerifMain dispatches harness sub-commands that live inside package raft.
 func VerifMain(args []string) int {
@@ -17,6 +50,9 @@ func VerifMain(args []string) int {
 	if !ok {
 		fmt.Fprintln(os.Stderr, "vh raft: unknown sub-command", args[0])
 		return 2
+	}
+	if args[0] != "live" {
+		simWatchdog(60 * time.Second)
 	}
 	return fn(args[1:])
 }
